@@ -6,7 +6,7 @@ from sa.loader import AnalysisError, norm, walk_local
 from sa.shapes import consumption, has_unknown, flat
 from sa.cfg import cfg_of
 from sa.spec import avro_wire as spec
-from .common import true_facts, analysis, W_NAMES, tokens, names_in
+from .common import true_facts, analysis, W_NAMES, tokens, names_in, value_sources, assigned_values
 from .c01 import check_shapes
 
 PROP = "C02"
@@ -131,7 +131,40 @@ def run(ctx):
         extra = sorted(l for l in labels if l not in allowed and not l.endswith("['name']"))
         ctx.check("C02.R6", "write_union: a hint selects a branch only by its full name / type name", not extra, wu6.where(), f"write_union: hint compared with {sorted(labels)}", "a hint is also matched against something that is not the branch's full name (a short or partial name can denote another branch): the index written is not the one the hint names")
 
+    # ---- R9 the value written under the chosen branch is the caller's ------------------------------------------
+    ctx.rule("C02.R9", "write_union: the value handed to the chosen branch is the datum itself, the value half of a (name, value) hint, or what a logical-type preparer returned for it", floor=1)
+    wu9 = a.writers.funcs("union")[0]
+    D9 = wu9.pos_params[1]
+    finals = [c for c in walk_local(wu9.node) if isinstance(c, ast.Call) and isinstance(c.func, ast.Name) and a.p.resolve_func(wu9.mod, c.func) is not None and a.p.resolve_func(wu9.mod, c.func).name == "write_data" and len(c.args) >= 2]
+    if not finals:
+        ctx.unrecognised("C02.R9", "write_union", wu9.where(), "no write_data(encoder, <value>, schema[index], ..) call")
+    for c in finals:
+        arg = c.args[1]
+        if not isinstance(arg, ast.Name):
+            ctx.unrecognised("C02.R9", "write_union: value written", wu9.where(c), f"the value written is `{norm(arg)[:60]}`, not a variable")
+            continue
+        bad = []
+        n_src = 0
+        for k, v in value_sources(a, wu9, arg):
+            n_src += 1
+            if k == "param" and v.arg == D9:
+                continue
+            if k == "unpack":
+                continue  # name, datum = datum (hint): the origin of the tuple is judged by C09.R1
+            if k == "expr" and isinstance(v, ast.Call) and not isinstance(v.func, ast.Attribute) and any(isinstance(x, ast.Name) and x.id == D9 for x in v.args) and "LOGICAL_WRITERS" in " ".join(norm(s_) for s_ in assigned_values(wu9.node, v.func.id)) if (k == "expr" and isinstance(v, ast.Call) and isinstance(v.func, ast.Name)) else False:
+                continue
+            if k == "expr" and isinstance(v, ast.Call) and "LOGICAL_WRITERS" in norm(v.func):
+                continue
+            if k == "expr" and isinstance(v, ast.Subscript) and isinstance(v.value, ast.Name) and v.value.id == D9 and isinstance(v.slice, ast.Constant) and v.slice.value == 1:
+                continue  # datum[1] of a hint tuple
+            bad.append((k, v))
+        if n_src == 0:
+            ctx.unrecognised("C02.R9", "write_union: value written", wu9.where(c), "no source found for the value written")
+        else:
+            ctx.check("C02.R9", "write_union: the value written under the chosen branch is the caller's", not bad, wu9.where(bad[0][1]) if bad and hasattr(bad[0][1], "lineno") else wu9.where(c), f"write_union: {arg.id} can be `{norm(bad[0][1])[:80]}`" if bad else "", "the value is rebuilt before it is written (entries dropped, copied or converted) whatever branch was chosen: under a branch where those entries are data (a map that has that key) other bytes than the datum's encoding are written")
+
     # ---- shared ----
+    ctx.borrow("C10", {"C10.R8": "C02.R10"}, "the encoders compute lengths with len() and write the object as it is: exact for the Python types the validators accept today (bytes, bytearray, str, ..); a validator that lets another type through (a memoryview counts items, not bytes) makes the writer emit a length prefix that is not the number of bytes that follow")
     ctx.borrow("C10", {"C10.R2": "C02.R8"}, "an un-hinted union value is encoded under the first branch the validators accept: a container validator that accepts without consulting every element selects a branch the value does not conform to, and the bytes are not the encoding of the datum under a conforming branch")
 
 
